@@ -99,9 +99,30 @@ class StubGen(InstructionGenerator):
         return self, self.instructions
 
 
+class GenZ(StubGen):
+    """(three distinct classes whose names are NOT in alphabetical order of priority: StepSimulation keys generators by class name)"""
+
+    def __init__(self, instructions):
+        self.instructions = instructions
+
+    @property
+    def name(self):
+        return self.__class__.__name__
+
+
+class GenA(GenZ):
+    pass
+
+
+class GenM(GenZ):
+    pass
+
+
 def h_prec(g1: int, g2: int, g3: int, idle: int, o1: int) -> bool:
     """
     generator outputs for v0: 0 none, 1 Idle, 2 DispatchTrip(r0), 3 DispatchBase(b0), 4 OutOfService
+    CASE (rj): 0 nothing / k: generator k is handed back unchanged through StepSimulation.update_instruction_generator before the
+    step (what runner_payload_ops.update_instruction_generator does between co-simulation calls): priority must not move
     pre: 0 <= g1 <= 4 and 0 <= g2 <= 4 and 0 <= g3 <= 4 and 0 <= idle <= 4000 and 0 <= o1 <= 1
     post: _
     """
@@ -128,8 +149,11 @@ def h_prec(g1: int, g2: int, g3: int, idle: int, o1: int) -> bool:
     gens = []
     for k, ins in enumerate(outs):
         emitted = tuple(x for x in (ins, other if k == 0 else None) if x is not None)
-        gens.append(StubGen(f"g{k}", emitted))
+        gens.append((GenZ, GenA, GenM)[k](emitted))
     step = StepSimulation.from_tuple(tuple(gens))
+    for k in range(3):
+        if CASE % 4 == k + 1:
+            step = step.update_instruction_generator(gens[k]).unwrap()
     sim2, _ = step.update(sim, env)  # ---- real code
     logged = [r.report for r in rec.reports if r.report_type.name == "INSTRUCTION"]
     mine = [r for r in logged if r["vehicle_id"] == "v0"]
